@@ -138,6 +138,14 @@ func classifyRoot(prog *Program, v ssa.Value, seen map[ssa.Value]bool) rootClass
 			case "MakeSlice", "MakeMap", "Append", "New", "MakeMapWithSize", "MapKeys":
 				return rootClass{"fresh", "reflect." + callee.Name()}
 			}
+			// an element, a field or a sub-slice of a reflect value shares the memory of the value it is taken from:
+			// the receiver decides (the slot k of a container made here is memory made here)
+			switch callee.Name() {
+			case "Index", "Elem", "Field", "Slice", "Slice3", "Addr", "FieldByIndex":
+				if callee.Signature.Recv() != nil && len(x.Call.Args) > 0 {
+					return classifyRoot(prog, x.Call.Args[0], seen)
+				}
+			}
 			return rootClass{"shared", "reflect value derived from the input"}
 		}
 		if callee != nil && prog.InModule(callee) && returnsFresh(callee) {
